@@ -103,7 +103,9 @@ for p, g in PUB.items():
                 ('symmetric', 'Implies(sym, result[k0] == result[n - 1 - k0])'),
                 # the constants are the doubles nearest to the textbook decimals (0.54 + 0.46 exceeds 1 by 5.6e-17 as reals):
                 # the range is stated with that much slack; in floating point the extreme values round to 0 and 1
-                ('unit_range', 'And(result[k0] >= -Q(1, 10**15), result[k0] <= 1 + Q(1, 10**15))')])
+                ('unit_range', 'And(result[k0] >= -Q(1, 10**15), result[k0] <= 1 + Q(1, 10**15))')]
+       # the Hamming window never touches zero (0.54 - 0.46 = 0.08 at the ends): what makes it usable as a default spectral window
+       + ([('pedestal', 'result[k0] >= Q(7, 100)')] if p == 'hamming' else []))
 
 # ---------------------------------------------------------------------------------------------------
 HALF = '(ToReal(n - 1) / 2)'
